@@ -62,12 +62,26 @@ def run(ctx):
                 with open(tp) as f:
                     samples = [json.loads(next(f)) for _ in range(5)]
             os.remove(tp)
+    # implementation-shaped model (DefragImpl.tla, a transcription of ip4defrag/defrag.go): its escalated scripted
+    # scenarios on every run, the whole pipeline (model checked against Defrag!Judge, behaviours replayed with
+    # predicted-vs-observed comparison, real trace judged) in the thorough tier
+    from . import defragimpl as di
+    impl = {"escalated_scenarios": di.run_escalations(V)}
+    if not quick:
+        icov = di.run_impl(ctx, lambda reason: V)
+        impl["impl_model"] = {k: icov[k] for k in ("model", "plans", "defect_finding_runs", "states", "traces_validated_against_impl",
+                                                   "trace_events_validated", "events_compared_model_vs_code", "rejected_real_scenarios",
+                                                   "impl_drift") if k in icov}
+        tstates += icov["states"]
+        total_sc += icov["traces_validated_against_impl"]
+        total_ev += icov["trace_events_validated"]
     rc = V.finish()
     cov = {"states": sum(g["tlc_states"] for g in gens) + tstates, "transitions": total_ev,
            "generator_models": gens, "traces_validated_against_impl": total_sc, "trace_events_validated": total_ev,
            "rejected_scenarios": nbad, "evaluations": total_sc, "distinct_nontrivial": total_sc,
            "rule": "every arrival sequence of DefragGen.tla within the bound (distinct by construction), replayed with IHL 5/6 and unit sizes 8/16/24 bytes, plus seeded random benign datagrams (up to 65515 bytes), hostile sets (undersized, beyond-max offsets, overruns, discards) and IPv6 permutations",
            "samples": samples, "exhaustive": True}
+    cov.update(impl)
     vlib.write_evidence(PID, ctx.tier, ctx.seed, "model_checking", cov, time.time() - t0, len(V.violations),
                         ["provenance of output bytes is decoded from fragment content (each 8-byte group names its fragment and offset)",
                          "IPv6: benign permutations only, scenario ends at the completed datagram"])
